@@ -223,6 +223,11 @@ func genYamlTestFile(r *rand.Rand, ruleId string) (string, bool) {
 	if chance(r, 0.1) {
 		lines = append(lines, "  - test_title: a test_id: 5") // both keys on one line: outside the quantifier
 	}
+	if chance(r, 0.15) {
+		// the last line with text ends in white space: that white space is content, only blank LINES after it go
+		lines = append(lines, pick(r, []string{"    desc: \"last\" ", "      last body line\t", "    v: 1\u00a0", "  - test_id: 3  "}))
+		nontrivial = true
+	}
 	// trailing material
 	nTrail := r.Intn(4)
 	for k := 0; k < nTrail; k++ {
